@@ -255,19 +255,23 @@ class RungeKuttaIntegrator(TableauIntegrator, abc.ABC):
             self.__jac_eye = D.ar_numpy.eye(self.tableau_intermediate.shape[0] * __step, **self.array_constructor_kwargs)
             self.__jac = D.ar_numpy.copy(self.__jac_eye)
         D.ar_numpy.copyto(self.__jac, self.__jac_eye)
-        for idx in range(0, self.__jac.shape[0], __step):
+        # the unknowns are the stage slopes laid out like stage_values, i.e. component-major (component c, stage s -> c * stages + s):
+        # d(k_s - f(Y_s))[c] / d k_s'[c'] = delta - timestep * a[s, s'] * J_s[c, c']
+        __stages = self.tableau_intermediate.shape[0]
+        __a = self.tableau_intermediate[:, 1:]
+        for sdx in range(__stages):
             if self._requires_high_precision:
-                tbl = self.tableau_intermediate[idx // __step]
+                tbl = self.tableau_intermediate[sdx]
                 jac_block = rhs.jac(initial_time + tbl[0] * timestep,
                                     initial_state + timestep * D.ar_numpy.sum(tbl[1:] * __aux_states, axis=-1),
                                     **constants).reshape(__step, __step)
             else:
                 jac_block = self.__rhs_jac.reshape(__step, __step)
-            for jdx in range(0, self.__jac.shape[1], __step):
-                with warnings.catch_warnings():
-                    warnings.filterwarnings("ignore", category=RuntimeWarning, message="invalid value encountered in matmul")
-                    warnings.filterwarnings("ignore", category=RuntimeWarning, message="overflow encountered in subtract")
-                    self.__jac[idx:idx + __step, jdx:jdx + __step] -= timestep * self.tableau_intermediate[idx // __step, 1 + jdx // __step] * jac_block
+            with warnings.catch_warnings():
+                warnings.filterwarnings("ignore", category=RuntimeWarning, message="invalid value encountered in matmul")
+                warnings.filterwarnings("ignore", category=RuntimeWarning, message="overflow encountered in subtract")
+                for sdx2 in range(__stages):
+                    self.__jac[sdx::__stages, sdx2::__stages] -= timestep * __a[sdx, sdx2] * jac_block
         __jac = self.__jac
         if self.__jac.shape[0] == 1 and self.__jac.shape[1] == 1:
             __jac = D.ar_numpy.reshape(__jac, tuple())
